@@ -8,11 +8,13 @@ from harness import gen
 from harness.framework import Suite
 
 PID = "C08"
-LEAN_MODS = ["SwcVerif.Props.C08", "SwcVerif.Props.C08Gen", "SwcVerif.Props.C08Node", "SwcVerif.Props.C08BranchTree", "SwcVerif.Props.C08NodeFull"]
+LEAN_MODS = ["SwcVerif.Props.C08", "SwcVerif.Props.C08Gen", "SwcVerif.Props.C08Node", "SwcVerif.Props.C08BranchTree", "SwcVerif.Props.C08NodeFull",
+             "SwcVerif.Props.C08Wrap"]
 # Gen/AlgoBranches.lean (Tree.get_branches / get_paths / get_furcations and their closures) runs on Gen/AlgoTraverse.lean;
 # Gen/AlgoNodeBranch.lean (Tree.get_tips, Tree.Node.branch) runs on the node methods of Gen/AlgoNode.lean
-TRANSLATE_ALGO = ["AlgoTraverse", "AlgoBranches", "AlgoNode", "AlgoNodeBranch", "AlgoSubtree", "AlgoBranchTree"]
-DRIVER_FILES = ["SwcVerif/Model/AlgoRunBranches.lean", "SwcVerif/Model/AlgoRunNodeBranch.lean", "SwcVerif/Model/AlgoRunBranchTree.lean",
+TRANSLATE_ALGO = ["AlgoTraverse", "AlgoBranches", "AlgoNode", "AlgoNodeBranch", "AlgoSubtree", "AlgoBranchTree",
+                  "AlgoCtorTree"]      # Gen/AlgoCtorTree.lean: the deprecated spellings Tree.get_bifurcations / Node.is_bifurcation
+DRIVER_FILES = ["SwcVerif/Model/AlgoRunCtorTree.lean", "SwcVerif/Model/AlgoRunBranches.lean", "SwcVerif/Model/AlgoRunNodeBranch.lean", "SwcVerif/Model/AlgoRunBranchTree.lean",
                 "SwcVerif/Model/BranchTree.lean"]
 THEOREMS = [
     "C08.getBranches_eq", "C08.branches_partition_edges", "C08.branch_shape", "C08.branch_ends", "C08.getPaths_eq", "C08.paths_one_per_tip",
@@ -34,6 +36,8 @@ THEOREMS = [
     # Node.branch() returns a member of the decomposition (the open item of C08Node: membership; interior nodes have exactly one child)
     "C08.downOK_det", "C08.downOK_interior", "C08.chain_all", "C08.cover_all", "C08.branchesOf_chain", "C08.upOK_reverse",
     "C08.nodeBranch_mem_branchesOf", "C08.generated_nodeBranch_mem_branches",
+    # the deprecated spellings as generated on this run (Gen/AlgoCtorTree.lean) are their targets
+    "RefineCtor.get_bifurcations_eq", "RefineCtor.node_is_bifurcation_eq", "C08.generated_get_bifurcations_eq", "C08.generated_node_is_bifurcation_spec",
 ]
 TRUSTED = ["hand-written models Model/Branches.lean of the traversal callbacks (tied by the c08.decomp correspondence suite)"]
 ASSUMPTIONS = ["the traversal loop is C04's machine (C04.traverse_eq_spec)", "np.setdiff1d returns the sorted ids that never occur as a parent"]
@@ -277,6 +281,7 @@ class Decomp(Suite):
         with warnings.catch_warnings():
             warnings.simplefilter("ignore")
             res["bifurcations_alias"] = [int(n.id) for n in t.get_bifurcations()]
+            res["node_isbif"] = {str(i): bool(t.node(i).is_bifurcation()) for i in range(min(n_eff, 12))}
             if n_eff > 1:
                 lp = ToLongestPath(detach=False)(t)
                 res["longest"] = {"ids": [int(v) for v in lp.get_ndata(lp.names.id)], "length": float(lp.length())}
@@ -319,6 +324,12 @@ class Decomp(Suite):
                ("furcs " + a, gen.ints(res["furcations"]).replace("_", "")), ("tips " + a, gen.ints(sorted(res["tips"])).replace("_", ""))]
         # the methods generated from tree.py on this run, running on the generated traversal (translator cross-check)
         out += [("gbranches " + a, sl(res["branches"])), ("gfurcs " + a, gen.ints(res["furcations"]).replace("_", ""))]
+        # the deprecated spellings as generated on this run (Gen/AlgoCtorTree.lean), against what THEY returned
+        if "bifurcations_alias" in res:
+            out.append(("gwraptree op=bifurcations " + a, gen.ints(res["bifurcations_alias"]).replace("_", "")))
+        for i, v in res.get("node_isbif", {}).items():
+            if t["n"] <= 400 or int(i) < 3:
+                out.append((f"gwraptree op=isbif {a} node={i}", "T" if v else "F"))
         if t["n"] <= 1500:
             out.append(("gpaths " + a, sl(res["paths"])))       # the association-list dictionary of the generated code is quadratic
         # Tree.get_tips / Tree.Node.branch / the node-handle methods as generated on this run (Gen/AlgoNodeBranch.lean, Gen/AlgoNode.lean);
